@@ -26,6 +26,7 @@ func (s *idealKeySig) sig(data []byte) []byte {
 			msg = append(append([]byte{}, data...), 0)
 		}
 	}
+	p = s.k.WithHead(p)
 	x := byte(0)
 	for _, b := range msg {
 		x ^= b
@@ -106,4 +107,26 @@ func VerifH_factory_signature() {
 		verifrt.Assert(len(ev) == 1 && ev[0].Failure, "verify failure logged")
 		verifrt.Reach("rejected")
 	}
+}
+
+// A RAW key's genuine signature verifies even when its first five bytes happen to equal the
+// output prefix of another ENABLED key of the keyset.
+func VerifH_factory_signature_rawcollision() {
+	rec := verifh.InstallMonitoring()
+	ks := verifh.SymbolicKeyset(factoryMax(), []int{0, 1, 2, 3}, true)
+	raw, collides := verifh.RawCollisionSetup(ks)
+	verifrt.Assume(raw >= 0)
+	v, err := NewVerifierWithConfig(ks.Handle, stubConfig{})
+	verifrt.Assert(err == nil, "NewVerifierWithConfig succeeds")
+	data := verifrt.Bytes("data", verifrt.Choice("dn", 2))
+	x := (&idealKeySig{k: ks.Keys[raw], full: true}).sig(data)
+	mark := len(rec.Events)
+	err = v.Verify(x, data)
+	verifrt.Assert(err == nil, "a RAW key's genuine signature verifies whatever its leading bytes are")
+	ev := rec.Since(mark, "verify")
+	verifrt.Assert(len(ev) == 1 && !ev[0].Failure && ev[0].KeyID == ks.Keys[raw].ID, "verify success logged once, naming the RAW key")
+	if collides {
+		verifrt.Reach("collision")
+	}
+	verifrt.Reach("end")
 }
